@@ -67,6 +67,13 @@ func runImpl(c *Case) Outcome {
 	count := 0
 	var o Outcome
 	lastEngine = nil
+	if crumbFile != nil {
+		tp := map[string]any{}
+		for k, v := range c.Templates {
+			tp[k] = v
+		}
+		breadcrumb("render", map[string]any{"templates": tp, "main": c.Main, "ctx": fmt.Sprint(c.Ctx), "prime": c.Prime})
+	}
 	res := guarded(func() (string, error) {
 		e := twig.New()
 		if c.Policy != nil {
